@@ -1370,6 +1370,22 @@ func quantPatternList(body, bn string, d *Defs, outer ...string) []string {
 					continue
 				}
 			}
+			if strings.Contains(term, "(ite ") {
+				// `ite` is not allowed in patterns: name the (closed) sequence term; the defining
+				// equation puts it in the same congruence class as the ite term
+				if d == nil || head == "(select " || strings.Contains(arg1, "q.") || letNameRe.MatchString(arg1) {
+					continue
+				}
+				a1 := d.expandLets(arg1)
+				if strings.Contains(a1, "q.") || letNameRe.MatchString(a1) {
+					continue
+				}
+				srt := "Slice"
+				if head == "(s.ix " {
+					srt = "Str"
+				}
+				term = head + d.DefineGlobal("pat", srt, a1) + " " + bn + ")"
+			}
 			if !seen[term] {
 				seen[term] = true
 				pats = append(pats, ":pattern ("+term+")")
